@@ -154,6 +154,183 @@ impl<'a> UnnormalizedMachineBuilder<'a> {
     }
 }
 
+/// the start configuration satisfies the invariant
+proof fn lemma_initial_inv(gr: Gram, t: Set<StateItem>)
+    requires is_closure_of(gr, Set::<StateItem>::empty().insert(start_item()), t)
+    ensures inv_core(gr, seq![t], Set::<Transition>::empty())
+{
+    let k = Set::<StateItem>::empty().insert(start_item());
+    let its = seq![t];
+    let tr = Set::<Transition>::empty();
+    lemma_closure_is_closed(gr, k, t);
+    assert(t.contains(start_item()));
+    assert forall|y: StateItem| #[trigger] k.contains(y) implies lalr_in(gr, tr, 0, y) by { assert(lalr_reach(gr, tr, 0, 0, y)); }
+    assert forall|s: int, x: StateItem| 0 <= s < its.len() && #[trigger] its[s].contains(x) implies lalr_in(gr, tr, s, x) by {
+        let n = choose|n: nat| closure_reach(gr, k, n, x);
+        lemma_lalr_closure(gr, tr, 0, k, n, x);
+    }
+}
+
+/// the finished (unnormalised) machine is the LALR(1) automaton of the grammar; well-formedness facts for later stages
+spec fn um_is_lalr(gr: Gram, m: UnnormalizedMachine) -> bool {
+    let its = m.states@.map_values(|st: State| st.items@);
+    &&& machine_is_lalr(gr, its, m.transitions@)
+    &&& forall|s: int| 0 <= s < m.states@.len() ==> (#[trigger] m.states@[s]).items.wf()
+    &&& forall|s: int, x: StateItem| 0 <= s < m.states@.len() && #[trigger] m.states@[s].items@.contains(x) ==> item_wf(gr, x)
+}
+
+/// after processing state s (popped from the queue) the loop invariant holds again
+proof fn lemma_build_step(b0: UnnormalizedMachineBuilder, b1: UnnormalizedMachineBuilder, s: int)
+    requires pass_post(b0, b1, s, true), 0 <= s < b0.states@.len(), b1.context == b0.context,
+        forall|p: int| 0 <= p < b0.states@.len() && p != s ==> queued(b0.queue@, p) || #[trigger] processed(b0.gr(), b0.its(), b0.transitions@, p),
+    ensures b1.binv()
+{
+    let gr = b0.gr();
+    assert forall|p: int| 0 <= p < b1.states@.len() implies queued(b1.queue@, p) || #[trigger] processed(gr, b1.its(), b1.transitions@, p) by {
+        if p >= b0.states@.len() || b1.its()[p] != b0.its()[p] { assert(queued(b1.queue@, p)); }
+        else if p == s { }
+        else if queued(b0.queue@, p) { assert(queued(b1.queue@, p)); }
+        else { assert(processed(gr, b0.its(), b0.transitions@, p)); }
+    }
+}
+
+/// relation between the builder before (b0) and during/after (b1) one pass over the symbols of state s:
+/// the queue-independent invariant holds, item sets and queue only grow, whoever grew or was created is queued,
+/// untouched processed states stay processed; `done`: s itself is processed unless it grew
+spec fn pass_post(b0: UnnormalizedMachineBuilder, b1: UnnormalizedMachineBuilder, s: int, done: bool) -> bool {
+    let gr = b0.gr();
+    let n = b0.states@.len() as int;
+    &&& b1.bwf() && b1.states@.len() >= n && inv_core(gr, b1.its(), b1.transitions@)
+    &&& forall|p: int| 0 <= p < n ==> b0.its()[p].subset_of(#[trigger] b1.its()[p])
+    &&& forall|p: int| queued(b0.queue@, p) ==> #[trigger] queued(b1.queue@, p)
+    &&& forall|p: int| 0 <= p < b1.states@.len() && (p >= n || b1.its()[p] != b0.its()[p]) ==> #[trigger] queued(b1.queue@, p)
+    &&& forall|p: int| 0 <= p < n && p != s && b1.its()[p] == b0.its()[p] && processed(gr, b0.its(), b0.transitions@, p) ==> #[trigger] processed(gr, b1.its(), b1.transitions@, p)
+    &&& done ==> (b1.its()[s] == b0.its()[s] ==> processed(gr, b1.its(), b1.transitions@, s))
+}
+
+proof fn lemma_pass_start(b: UnnormalizedMachineBuilder, s: int)
+    requires b.bwf(), inv_core(b.gr(), b.its(), b.transitions@)
+    ensures pass_post(b, b, s, false)
+{
+}
+
+proof fn lemma_queued_push(q: Seq<StateIndex>, r: StateIndex)
+    ensures queued(q.push(r), r.0 as int), forall|p: int| queued(q, p) ==> #[trigger] queued(q.push(r), p)
+{
+    assert(q.push(r)[q.len() as int] == r);
+    assert forall|p: int| queued(q, p) implies #[trigger] queued(q.push(r), p) by {
+        let k = choose|k: int| 0 <= k < q.len() && (#[trigger] q[k]).0 == p;
+        assert(q.push(r)[k] == q[k]);
+    }
+}
+
+proof fn lemma_pass_step(bs: UnnormalizedMachineBuilder, b0: UnnormalizedMachineBuilder, b1: UnnormalizedMachineBuilder,
+                         si: StateIndex, x: Symbol, syms: Seq<Symbol>, kk: int)
+    requires
+        pass_post(bs, b0, si.0 as int, false), b0.context == bs.context, b1.context == b0.context, b1.bwf(),
+        si.0 < bs.states@.len(), bs.states@.len() <= b0.states@.len(),
+        ett_post(b0, b1, si, x), 0 <= kk < syms.len(), syms[kk] == x,
+        exists|i: StateItem| b0.its()[si.0 as int].contains(i) && #[trigger] has_after(b0.gr(), i, x),
+        forall|k: int, i: StateItem| 0 <= k < kk && bs.states@[si.0 as int].items@.contains(i) && #[trigger] has_after(bs.gr(), i, syms[k]) ==>
+            exists|t: Transition| #[trigger] b0.transitions@.contains(t) && t.from.0 == si.0 && t.symbol == syms[k] && b0.its()[t.to.0 as int].contains(advanced(i)),
+    ensures
+        pass_post(bs, b1, si.0 as int, false),
+        forall|k: int, i: StateItem| 0 <= k < kk + 1 && bs.states@[si.0 as int].items@.contains(i) && #[trigger] has_after(bs.gr(), i, syms[k]) ==>
+            exists|t: Transition| #[trigger] b1.transitions@.contains(t) && t.from.0 == si.0 && t.symbol == syms[k] && b1.its()[t.to.0 as int].contains(advanced(i)),
+{
+    let gr = bs.gr();
+    let s = si.0 as int;
+    let (t, r) = choose|t: Set<StateItem>, r: StateIndex| #[trigger] ett_witness(b0, b1, si, x, t, r);
+    assert(b0.its()[s] == b0.states@[s].items@);
+    lemma_ett_is_step(b0, b1, si, x, t, r);
+    vstd::std_specs::vec::axiom_spec_len(&b1.states);
+    lemma_step_inv(gr, b0.its(), b0.transitions@, b1.its(), b1.transitions@, s, x, t, r.0 as int);
+    let n = bs.states@.len() as int;
+    let its0 = b0.its(); let its1 = b1.its();
+    // queue growth
+    lemma_queued_push(b0.queue@, r);
+    assert forall|p: int| queued(b0.queue@, p) implies #[trigger] queued(b1.queue@, p) by {}
+    assert forall|p: int| 0 <= p < b1.states@.len() && (p >= n || its1[p] != bs.its()[p]) implies #[trigger] queued(b1.queue@, p) by {
+        if p < b0.states@.len() && its1[p] == its0[p] { assert(queued(b0.queue@, p)); }
+        else { assert(p == r.0); }
+    }
+    assert forall|p: int| 0 <= p < n && p != s && its1[p] == bs.its()[p] && processed(gr, bs.its(), bs.transitions@, p) implies #[trigger] processed(gr, its1, b1.transitions@, p) by {
+        assert(bs.its()[p].subset_of(its0[p]) && its0[p].subset_of(its1[p]));
+        assert(its0[p] =~= bs.its()[p]);
+        assert(processed(gr, its0, b0.transitions@, p));
+    }
+    assert forall|p: int| 0 <= p < n implies bs.its()[p].subset_of(#[trigger] its1[p]) by { assert(bs.its()[p].subset_of(its0[p]) && its0[p].subset_of(its1[p])); }
+    // handled symbols
+    assert forall|k: int, i: StateItem| 0 <= k < kk + 1 && bs.states@[s].items@.contains(i) && #[trigger] has_after(gr, i, syms[k]) implies
+        exists|t2: Transition| #[trigger] b1.transitions@.contains(t2) && t2.from.0 == s && t2.symbol == syms[k] && its1[t2.to.0 as int].contains(advanced(i)) by {
+        if k < kk {
+            let t2 = choose|t2: Transition| #[trigger] b0.transitions@.contains(t2) && t2.from.0 == s && t2.symbol == syms[k] && its0[t2.to.0 as int].contains(advanced(i));
+            assert(b1.transitions@.contains(t2));
+            assert(its0[t2.to.0 as int].subset_of(its1[t2.to.0 as int]));
+        } else {
+            let tn = Transition { from: StateIndex(s as usize), to: StateIndex(r.0 as int as usize), symbol: x };
+            assert(bs.its()[s] == bs.states@[s].items@);
+            assert(its0[s].contains(i));
+            assert(b1.transitions@.contains(tn) && tn.from.0 == s && tn.to.0 == r.0);
+        }
+    }
+}
+
+proof fn lemma_pass_done(bs: UnnormalizedMachineBuilder, b1: UnnormalizedMachineBuilder, s: int, syms: Seq<Symbol>)
+    requires pass_post(bs, b1, s, false), 0 <= s < bs.states@.len(), b1.context == bs.context,
+        forall|x: Symbol| #[trigger] syms.to_set().contains(x) <==> exists|i: StateItem| bs.states@[s].items@.contains(i) && #[trigger] after_dot(bs.gr(), i) == Some(x),
+        forall|k: int, i: StateItem| 0 <= k < syms.len() && bs.states@[s].items@.contains(i) && #[trigger] has_after(bs.gr(), i, syms[k]) ==>
+            exists|t: Transition| #[trigger] b1.transitions@.contains(t) && t.from.0 == s && t.symbol == syms[k] && b1.its()[t.to.0 as int].contains(advanced(i)),
+    ensures pass_post(bs, b1, s, true)
+{
+    let gr = bs.gr();
+    if b1.its()[s] == bs.its()[s] {
+        assert forall|i: StateItem, x: Symbol| b1.its()[s].contains(i) && #[trigger] has_after(gr, i, x) implies
+            exists|t: Transition| #[trigger] b1.transitions@.contains(t) && t.from.0 == s && t.symbol == x && b1.its()[t.to.0 as int].contains(advanced(i)) by {
+            assert(bs.its()[s] == bs.states@[s].items@);
+            assert(syms.to_set().contains(x));
+            let k = choose|k: int| 0 <= k < syms.len() && syms[k] == x;
+            assert(has_after(gr, i, syms[k]));
+        }
+    }
+}
+
+/// index p is waiting in the queue
+spec fn queued(q: Seq<StateIndex>, p: int) -> bool { exists|k: int| 0 <= k < q.len() && (#[trigger] q[k]).0 == p }
+
+impl<'a> UnnormalizedMachineBuilder<'a> {
+    /// loop invariant of the construction: the queue-independent invariant, and every state is queued or goto-complete
+    spec fn binv(&self) -> bool {
+        &&& self.bwf()
+        &&& inv_core(self.gr(), self.its(), self.transitions@)
+        &&& forall|p: int| 0 <= p < self.states@.len() ==> queued(self.queue@, p) || #[trigger] processed(self.gr(), self.its(), self.transitions@, p)
+    }
+}
+
+/// the concrete step is an abstract step
+proof fn lemma_ett_is_step(b0: UnnormalizedMachineBuilder, b1: UnnormalizedMachineBuilder, s: StateIndex, x: Symbol, t: Set<StateItem>, r: StateIndex)
+    requires ett_witness(b0, b1, s, x, t, r), s.0 < b0.states@.len(), b1.context == b0.context,
+        exists|i: StateItem| b0.states@[s.0 as int].items@.contains(i) && #[trigger] has_after(b0.gr(), i, x),
+    ensures step_rel(b0.gr(), b0.its(), b0.transitions@, b1.its(), b1.transitions@, s.0 as int, x, t, r.0 as int)
+{
+    let gr = b0.gr();
+    let its0 = b0.its(); let its1 = b1.its();
+    let n = its0.len() as int;
+    let k_set = choose|k_set: Set<StateItem>| #![auto] (forall|k: StateItem| #[trigger] k_set.contains(k) <==> goto_kernel_has(gr, its0[s.0 as int], x, k)) && is_closure_of(gr, k_set, t);
+    lemma_kernel_set(gr, its0[s.0 as int], x);
+    assert(k_set =~= kernel_set(gr, its0[s.0 as int], x));
+    assert(StateIndex(s.0 as int as usize) == s && StateIndex(r.0 as int as usize) == r);
+    assert forall|j: int| 0 <= j < n implies its0[j] == #[trigger] b0.states@[j].items@ by {}
+    if exists|j: int| 0 <= j < n && same_core(t, #[trigger] its0[j]) {
+        let j = choose|j: int| 0 <= j < n && same_core(t, #[trigger] its0[j]);
+        assert(same_core(t, b0.states@[j].items@));
+        assert(its1 =~= its0.update(r.0 as int, its0[r.0 as int].union(t)));
+    } else {
+        assert forall|j: int| 0 <= j < n implies !same_core(t, #[trigger] b0.states@[j].items@) by { assert(its0[j] == b0.states@[j].items@); }
+        assert(its1 =~= its0.push(t));
+    }
+}
+
 /// effect of enqueue_transition_target(s, x): some target set T = goto(s, x) is merged/created as state r and (s, x, r) recorded
 spec fn ett_witness(b0: UnnormalizedMachineBuilder, b1: UnnormalizedMachineBuilder, s: StateIndex, x: Symbol, t: Set<StateItem>, r: StateIndex) -> bool {
     &&& is_goto_of(b0.gr(), b0.states@[s.0 as int].items@, x, t)
@@ -298,13 +475,14 @@ fn __vx_extend_cloned(terminals: &mut Oset<DollarlessTerminalName>, nonterminal_
 impl UnnormalizedMachineBuilder<'_> {
     fn new(file: &File) -> /*@[*/(r: /*@]*/UnnormalizedMachineBuilder/*@[*/)/*@]*/
         //@[ C17 C07 UnnormalizedMachineBuilder::new: one state (the start state, index 0), queued; no transitions
-        ensures r.bwf(), r.context.rules@ == file_rules(file), r.context.start_nonterminal_name == file.start,
-            r.states@.len() == 1, is_closure_of(r.gr(), Set::<StateItem>::empty().insert(start_item()), r.states@[0].items@),
-            r.transitions@ == Set::<Transition>::empty(), r.queue@ == seq![StateIndex(0)],
+        ensures r.binv(), r.context.rules@ == file_rules(file), r.context.start_nonterminal_name == file.start,
         //@]
     {
         let context = ImmutContext::new(file);
         let start_state = context.get_start_state();
+        //@[ proof
+        proof { lemma_initial_inv(context.gr(), start_state.items@); }
+        //@]
         UnnormalizedMachineBuilder {
             context,
             states: vec![start_state],
@@ -337,13 +515,49 @@ impl UnnormalizedMachineBuilder<'_> {
     //@[ termination of the worklist loop is NOT proved (listed under C07 not_covered)
     #[verifier::exec_allows_no_decreases_clause]
     //@]
-    fn build(/*@{ T10_mut_self*//*@- mut self *//*@|*/self/*@}*/) -> UnnormalizedMachine {
+    fn build(/*@{ T10_mut_self*//*@- mut self *//*@|*/self/*@}*/) -> /*@[*/(r: /*@]*/UnnormalizedMachine/*@[*/)/*@]*/
+        //@[ C17 C04 C11 C07 build: the worklist construction yields THE LALR(1) automaton (item sets by state, transitions) of the grammar
+        requires self.binv(),
+        ensures um_is_lalr(self.gr(), r),
+        //@]
+    {
         //@[ T10
         let mut __vx_self = self;
+        let ghost gq = __vx_self.queue@;
         //@]
-        while let Some(state_index) = /*@{*//*@- self *//*@|*/__vx_self/*@}*/.queue.pop_front() {
+        while let Some(state_index) = /*@{*//*@- self *//*@|*/__vx_self/*@}*/.queue.pop_front()
+            //@[ C17 worklist invariant: every state is queued or goto-complete
+            invariant __vx_self.binv(), __vx_self.context == self.context, gq == __vx_self.queue@,
+            ensures __vx_self.binv(), __vx_self.context == self.context, __vx_self.queue@.len() == 0,
+            //@]
+        {
+            //@[ proof
+            let ghost b0 = __vx_self;
+            let ghost s = state_index.0 as int;
+            proof {
+                assert(gq.len() > 0 && gq[0] == state_index && b0.queue@ =~= gq.subrange(1, gq.len() as int));
+                // b_prev: the builder before the pop differs only in the queue; popping keeps everybody else queued
+                assert forall|p: int| 0 <= p < b0.states@.len() && p != s implies queued(b0.queue@, p) || #[trigger] processed(b0.gr(), b0.its(), b0.transitions@, p) by {
+                    if !processed(b0.gr(), b0.its(), b0.transitions@, p) {
+                        let k = choose|k: int| 0 <= k < gq.len() && (#[trigger] gq[k]).0 == p;
+                        assert(k > 0); assert(b0.queue@[k - 1] == gq[k]);
+                    }
+                }
+                assert(b0.bwf()) by { assert forall|i: int| 0 <= i < b0.queue@.len() implies (#[trigger] b0.queue@[i]).0 < b0.states@.len() by { assert(b0.queue@[i] == gq[i + 1]); } }
+            }
+            //@]
             /*@{*//*@- self *//*@|*/__vx_self/*@}*/.enqueue_transition_targets(state_index);
+            //@[ proof
+            proof { lemma_build_step(b0, __vx_self, s); gq = __vx_self.queue@; }
+            //@]
         }
+        //@[ proof
+        proof {
+            assert forall|p: int| 0 <= p < __vx_self.states@.len() implies #[trigger] processed(__vx_self.gr(), __vx_self.its(), __vx_self.transitions@, p) by {
+                assert(!queued(__vx_self.queue@, p));
+            }
+        }
+        //@]
         UnnormalizedMachine {
             states: /*@{*//*@- self *//*@|*/__vx_self/*@}*/.states,
             transitions: /*@{*//*@- self *//*@|*/__vx_self/*@}*/.transitions,
@@ -487,11 +701,55 @@ impl UnnormalizedMachineBuilder<'_> {
         index
     }
 
-    fn enqueue_transition_targets(&mut self, state_index: StateIndex) {
+    fn enqueue_transition_targets(&mut self, state_index: StateIndex)
+        //@[ C17 C04 C07 enqueue_transition_targets: processes every symbol right of a dot; afterwards the state is goto-complete unless it grew (then it is queued again)
+        requires old(self).bwf(), state_index.0 < old(self).states@.len(),
+            inv_core(old(self).gr(), old(self).its(), old(self).transitions@),
+        ensures final(self).context == old(self).context, pass_post(*old(self), *final(self), state_index.0 as int, true),
+        //@]
+    {
         let next_symbols = self.get_symbols_right_of_dot(state_index);
-        for symbol in &next_symbols {
+        //@[ proof
+        let ghost b_start = *self;
+        let ghost gr = self.gr();
+        let ghost s = state_index.0 as int;
+        let ghost syms = next_symbols.seq();
+        proof { lemma_pass_start(b_start, s); }
+        //@]
+        for symbol in /*@[*/__vx_it: /*@]*/&next_symbols
+            //@[ C17 loop invariant: a pass over the symbols seen so far
+            invariant
+                self.context == b_start.context, gr == self.gr(), gr == b_start.gr(), s == state_index.0, 0 <= s < b_start.states@.len(), next_symbols.wf(), syms == next_symbols.seq(),
+                __vx_it.seq() == syms.as_ref(),
+                forall|x: Symbol| #[trigger] next_symbols@.contains(x) <==> exists|i: StateItem| b_start.states@[s].items@.contains(i) && #[trigger] after_dot(gr, i) == Some(x),
+                pass_post(b_start, *self, s, false),
+                forall|k: int, i: StateItem| 0 <= k < __vx_it.index@ && b_start.states@[s].items@.contains(i) && #[trigger] has_after(gr, i, syms[k]) ==>
+                    exists|t: Transition| #[trigger] self.transitions@.contains(t) && t.from.0 == s && t.symbol == syms[k] && self.its()[t.to.0 as int].contains(advanced(i)),
+            //@]
+        {
+            //@[ proof
+            let ghost b0 = *self;
+            let ghost kk = __vx_it.index@;
+            proof {
+                assert(*symbol == syms[kk]);
+                assert(next_symbols@.contains(*symbol));
+                let i = choose|i: StateItem| b_start.states@[s].items@.contains(i) && #[trigger] after_dot(gr, i) == Some(*symbol);
+                assert(b_start.its()[s] == b_start.states@[s].items@);
+                assert(b_start.its()[s].subset_of(b0.its()[s]));
+                assert(b0.its()[s].contains(i) && has_after(gr, i, *symbol));
+            }
+            //@]
             self.enqueue_transition_target(state_index, symbol);
+            //@[ proof
+            proof { lemma_pass_step(b_start, b0, *self, state_index, *symbol, syms, kk); }
+            //@]
         }
+        //@[ proof
+        proof {
+            assert forall|x: Symbol| #[trigger] syms.to_set().contains(x) <==> next_symbols@.contains(x) by {}
+            lemma_pass_done(b_start, *self, s, syms);
+        }
+        //@]
     }
 
     //@[ T: Iterator::filter_map is outside the supported subset (body not verified; contract assumed)
